@@ -138,8 +138,23 @@ func genBoundary(out *Output, rng *Rng, perLint int, cfg lint.Configuration) {
 			}
 		}
 		for _, cc := range pool {
+			type redate struct {
+				d  time.Time
+				dl time.Duration
+			}
+			var rds []redate
 			for _, d := range dates {
 				for _, dl := range []time.Duration{-time.Second, 0, time.Second} {
+					rds = append(rds, redate{d, dl})
+				}
+			}
+			// far outside every window, in both directions (GeneralizedTime allows years 0000-9999)
+			for _, x := range []time.Time{time.Date(1500, 1, 1, 0, 0, 0, 0, time.UTC), time.Date(1601, 1, 1, 0, 0, 0, 0, time.UTC), time.Date(2300, 1, 1, 0, 0, 0, 0, time.UTC), time.Date(2846, 1, 1, 0, 0, 0, 0, time.UTC)} {
+				rds = append(rds, redate{x, 0})
+			}
+			for _, rd := range rds {
+				{
+					d, dl := rd.d, rd.dl
 					c2 := *cc.Cert
 					c2.NotBefore = d.Add(dl)
 					c := &c2
